@@ -363,9 +363,13 @@ def process_fn(asm, header_line, block, tmpl_line):
         if c != n:
             if asm.degrade and c == 0:
                 asm.degraded.append('%s::%s: substitution %s %r not applied (text no longer present)' % (container, name, r, old))
-                # a call-shape rewrite (R4/R11/R12/R13) whose text is absent leaves nothing to rewrite: the emitted
-                # body is still exactly the source; only R1/R2/R8 substitutions carry proof annotations
-                asm.degraded_hint_lost = asm.degraded_hint_lost or r in ('R1', 'R2', 'R8')
+                # R4 / R13 rewrites are purely syntactic (delete `.as_ref()`, `&mut v` -> `v` for a captured variable):
+                # when their text is absent there is nothing to rewrite and nothing is lost.  Every other rule may
+                # carry proof-relevant text - R1/R2/R8 insert annotations, and an R12 rewrite often routes a std call
+                # to an environment function WITH A CONTRACT (`value.try_into()` -> `slice_try_into_array20(value)`):
+                # if a mere re-formatting hides its anchor, the un-rewritten call still compiles but the proof has lost
+                # that contract - such a failed proof says nothing (found by running every check on a rustfmt-ed copy)
+                asm.degraded_hint_lost = asm.degraded_hint_lost or r not in ('R4', 'R13')
                 continue
             raise ScanError('lost anchor: %s::%s body: %r occurs %d times (need %d)' % (container, name, old, c, n))
         if old.count('\n') != new.count('\n'):
